@@ -11,7 +11,8 @@ def run(res, a):
     conc.run_exit_orders(res, "C09", a.seed, a.tier, {"content", "abandoned-leak", "segment-leak"})
     envs = [None, {"VERIF_RECLAIM_ON_FREE": "1"}, {"VERIF_NO_ARENA": "1", "VERIF_RECLAIM_ON_FREE": "1"}, {"VERIF_TARGET_SEGMENTS": "2"},
             {"VERIF_BIG_ARENA": "1"}, {"VERIF_NO_ARENA": "1"}, {"VERIF_BIG_ARENA": "1", "VERIF_RECLAIM_ON_FREE": "1"}]
-    conc.run_conc(res, "C09", a.seed, a.tier, envs=envs if a.tier == "thorough" else envs[:5], nseeds_quick=24)
+    stag = [{"VERIF_NO_ARENA": "1", "VERIF_RECLAIM_ON_FREE": "1", "VERIF_STAGGER": "1"}]      # threads terminate one after the other, thread 0 frees what the last one left
+    conc.run_conc(res, "C09", a.seed, a.tier, envs=(envs + stag) if a.tier == "thorough" else (envs[:5] + stag), nseeds_quick=20)
     # schedule-lockstep tie of coq/Model/Abandon.v (theorems: Properties/C09abandon.v) with the real allocator, same env variants
     # (plus a variant with two sub-processes -- odd threads join a second one -- which only exists for the lockstep: the end-of-run
     #  oracles of s_conc.c assume a single sub-process)
